@@ -278,6 +278,7 @@ htp_status_t htp_process_response_header_generic(htp_connp_t *connp, unsigned ch
             if (connp->out_tx->res_header_repetitions < HTP_MAX_HEADERS_REPETITIONS) {
                 connp->out_tx->res_header_repetitions++;
             } else {
+                HTP_VERIF_PROBE("res.hdr.repeat_cap", connp, connp->out_tx->res_header_repetitions, 0);
                 bstr_free(h->name);
                 bstr_free(h->value);
                 free(h);
